@@ -82,7 +82,7 @@ type World struct {
 	// disk backends: AfterCommit hook of the recording store, and a factory that reopens the file copy taken
 	// after batch i (nil for the in-memory backend)
 	afterCommit func(b *Batch)
-	openSnap    func(i int) (storage.Store, func(), error)
+	openSnap    func(i int, d Disk) (storage.Store, func(), error)
 }
 
 func (w *World) protocol(c *config.Blockchain) {
@@ -542,8 +542,8 @@ func (w *World) Enumerate(rr *runResult, workers int, pick func(i int) bool, emi
 		if pick == nil || pick(i+1) {
 			cj := crashJob{disk: trk.D.Clone(), label: fmt.Sprint(i + 1), i: i + 1, acc: b.Acc, phase: b.Phase, span: spanOf(i), depth: 1}
 			if w.openSnap != nil {
-				i := i
-				cj.open = func() (storage.Store, func(), error) { return w.openSnap(i) }
+				i, d := i, cj.disk
+				cj.open = func() (storage.Store, func(), error) { return w.openSnap(i, d) }
 			}
 			s.jobs = append(s.jobs, cj)
 		}
